@@ -524,3 +524,18 @@ impl<T: FloatT> GenPowerCone<T> {
         )
     }
 }
+// ---------------------------------------------
+// verification hooks (pub wrappers of the crate-private feasibility tests)
+// ---------------------------------------------
+#[cfg(clarabel_verif)]
+impl<T> GenPowerCone<T>
+where
+    T: FloatT,
+{
+    pub fn verif_c15_is_primal_feasible(&self, s: &[T]) -> bool {
+        NonsymmetricCone::is_primal_feasible(self, s)
+    }
+    pub fn verif_c15_is_dual_feasible(&self, z: &[T]) -> bool {
+        NonsymmetricCone::is_dual_feasible(self, z)
+    }
+}
